@@ -211,6 +211,12 @@ class Sim:
                 want = d.endswith("is_some") or d.endswith("is_ok")
                 upd["dest"] = ("b", pos == want)
             return upd, set()
+        if d in ("core::option::Option::<T>::unwrap", "core::option::Option::<T>::expect", "core::result::Result::<T, E>::unwrap",
+                 "core::result::Result::<T, E>::expect") and args:
+            v = self.val_of_operand(args[0], env)
+            if isinstance(v, tuple) and v[0] == "v" and v[1] in ("None", "Err"):
+                return "DIVERGE", set()
+            return upd, set()
         if d == "core::ops::Try::branch" and args:
             v = self.val_of_operand(args[0], env)
             if isinstance(v, tuple) and v[0] == "v" and v[1] in OK_LIKE:
@@ -286,6 +292,9 @@ class Sim:
                 model_upd, kept = (None, set())
                 if forks is None:
                     model_upd, kept = self._builtin_call(t, env)
+                    if model_upd == "DIVERGE":
+                        self.diverged.append((bb, a))
+                        continue
                     forks = [(a, model_upd or {})]
                 # invalidate everything reachable through &mut arguments, unless a model set it
                 muts = []
